@@ -98,6 +98,11 @@ func c20(c *Ctx) {
 					argv = append(argv, "-f")
 				}
 				p.out = runCmd(p.dir, e, mageBin, append(argv, "token")...)
+				// the go tool's own build cache is shared by these processes too; its (rare) lost-entry race — the linker
+				// is handed the placeholder name of a cached main package — is not mage's doing: that process is run again
+				for retry := 0; retry < 2 && strings.Contains(p.out.stderr, "DO NOT USE - main build pseudo-cache built"); retry++ {
+					p.out = runCmd(p.dir, e, mageBin, append(argv, "token")...)
+				}
 			}(p, delay)
 		}
 		close(start)
